@@ -35,7 +35,7 @@ PROPS = {
     "C03": {"level": "exploration", "arms": [A("par-large", 2000, 150000), A("par-free", 40000, 2500000), A("par-free-wide", 8000, 400000), A("par-preempt-sweep", 600, 40000), A("par-longarc", 8000, 60000)],
             "probes": ["probe:>=2_workers_compiling_at_once", "probe:worker_parked_and_woken", "probe:multi_wake", "probe:pruned_by_cache_at_pop", "probe:read_threshold_written_by_peer", "fringe_clears", "fault:preemptions"],
             "rule": RULE_SOLVER},
-    "C04": {"level": "exploration", "arms": [A("par-free", 30000, 1500000), A("par-cutoff", 40000, 2000000), A("par-flaky", 20000, 800000), A("par-threads", 20000, 800000), A("par-threads-cutoff", 20000, 800000), A("par-preempt-sweep-cutoff", 600, 30000), A("par-sweep", 1000, 50000), A("ext:miri-solver", 0, 320, reps=6)],
+    "C04": {"level": "exploration", "arms": [A("par-free", 30000, 1500000), A("par-cutoff", 40000, 2000000), A("par-flaky", 20000, 800000), A("par-threads", 20000, 800000), A("par-threads-cutoff", 20000, 800000), A("par-preempt-sweep-cutoff", 600, 30000), A("par-sweep", 1000, 50000), A("par-longarc", 6000, 50000), A("ext:miri-solver", 0, 320, reps=6)],
             "probes": ["probe:multi_wake", "probe:abort_with_peer_parked", "probe:abort_with_peer_processing", "fault:thread_count_increase", "fault:cutoff_fired", "probe:worker_parked_and_woken"],
             "rule": RULE_SOLVER + "; violation classes: deadlock (no enabled worker while one is parked), step-bound, worker panic, premature completion"},
     "C05": {"level": "exploration", "arms": [A("par-large-cutoff", 4000, 200000), A("par-cutoff", 60000, 3000000), A("par-preempt-sweep-cutoff", 600, 30000), A("par-sweep", 1500, 60000), A("par-threads-cutoff", 10000, 400000), A("seq-sweep", 6000, 250000), A("seq-sweep-nodup", 6000, 300000)],
@@ -50,9 +50,9 @@ PROPS = {
     "C08": {"level": "fault_enumeration", "arms": [A("dd-history", 30000, 1200000, boost=3), A("dd-history-narrow", 30000, 1200000, boost=3), A("dd-history-depthfree", 10000, 400000, boost=3), A("dd-history-longarc", 15000, 600000)],
             "probes": ["probe:relaxed_inexact", "cutset_nodes_checked", "completions_checked_for_coverage", "probe:frontier_cutset_spanning_>=2_layers", "fault:reuse_after_abort"],
             "rule": RULE_DD, "real": REAL_DD, "stub": STUB_DD},
-    "C09": {"level": "exploration", "arms": [A("par-large-cache", 2000, 100000), A("seq-large-cache", 8000, 300000), A("par-cache", 40000, 2000000), A("seq-cache", 40000, 1500000), A("par-free", 10000, 500000), A("seq-depthfree", 10000, 400000)],
-            "probes": ["probe:cache_hit", "probe:pruned_by_cache_at_pop", "probe:read_threshold_written_by_peer", "cache_clear_layers", "strategy:cache_biased"],
-            "rule": RULE_SOLVER + "; instances with heavy re-convergence (1-3 base states per layer); no lossy-cache fault in the cache arms (the real cache must be the one answering)"},
+    "C09": {"level": "exploration", "arms": [A("par-large-cache", 2000, 100000), A("seq-large-cache", 8000, 300000), A("par-cache", 40000, 2000000), A("seq-cache", 40000, 1500000), A("par-free", 10000, 500000), A("seq-depthfree", 10000, 400000), A("dd-history", 20000, 800000, boost=3), A("dd-history-narrow", 20000, 800000, boost=3), A("dd-history-depthfree", 8000, 300000, boost=3)],
+            "probes": ["probe:cache_hit", "probe:pruned_by_cache_at_pop", "probe:read_threshold_written_by_peer", "cache_clear_layers", "strategy:cache_biased", "thresholds_checked", "probe:published_threshold_equals_largest_sound_one"],
+            "rule": RULE_SOLVER + "; instances with heavy re-convergence (1-3 base states per layer); no lossy-cache fault in the cache arms (the real cache must be the one answering). Threshold level (dd-history arms): every threshold a completed compilation publishes to the cache is compared with the LARGEST SOUND threshold of that (state, depth), computed by a backward DP over the reference tables from the incumbent and the sub-problems handed out by the cut-set"},
     "C10": {"level": "exploration", "arms": [A("dom-enum", 1195740, 10761678, enum_len={"quick": 4, "thorough": 5}, samples=1), A("dom-history", 40000, 2000000), A("seq-dom", 30000, 1200000), A("par-dom", 30000, 1200000)],
             "probes": ["probe:dominated_verdict", "probe:equal_state_re_presented", "probe:recorded_entry_dropped_by_later_dominating_state", "threshold_soundness_probes", "comparator_pairs_checked", "probe:dominance_pruned_node"],
             "rule": "checker semantics: generated histories of is_dominated_or_insert / clear_layer over small alphabets (<= 2 keys + keyless, <= 3 coordinates in 0..2, values 0..3, 2 depths) compared step by step with a reference Pareto front; threshold soundness re-checked against fresh real checkers; distinct = distinct (use_value, history). Solver level: " + RULE_SOLVER},
